@@ -101,6 +101,12 @@ def build_layouts(case):
                     elif mode == "none":
                         line.transcription = None
                 line.transcription_confidence = spec["prev_conf"]
+            if e > 0 and spec["seed"] % 2:
+                # the engines were run on their own copies of the layout: same ids, geometry differing by rounding
+                line.baseline = line.baseline + 1.0
+                line.polygon = line.polygon + 1.0
+                line.heights = [line.heights[0] + 1.0, line.heights[1]]
+                line.index = 7
             groups[li % case["nreg"]].append(line)
             flat[e].append(line)
         for r, g in enumerate(groups):
